@@ -118,9 +118,7 @@ class IsoDepInitiator(object):
                     log.error("ISO-DEP unrecoverable protocol error")
                     raise Type4TagCommandError(nfc.tag.PROTOCOL_ERROR)
 
-            while data[0] & 0b11111110 == 0b11110010:  # WTX
-                log.debug("ISO-DEP waiting time extension")
-                data = self.clf.exchange(data, (data[1] & 0x3F) * self.fwt)
+            data = self._extend_waiting_time(data)
 
             if data[0] & 0x01 != self.pni:
                 log.warning("ISO-DEP protocol error: block number")
@@ -167,6 +165,8 @@ class IsoDepInitiator(object):
                     log.error("ISO-DEP unrecoverable protocol error")
                     raise Type4TagCommandError(nfc.tag.PROTOCOL_ERROR)
 
+            data = self._extend_waiting_time(data)
+
             if data[0] & 0x01 != self.pni:
                 log.error("ISO-DEP protocol error: block number")
                 raise Type4TagCommandError(nfc.tag.PROTOCOL_ERROR)
@@ -175,6 +175,26 @@ class IsoDepInitiator(object):
             self.pni = (self.pni + 1) % 2
 
         return response
+
+    def _extend_waiting_time(self, data):
+        # The card may request more time before it sends any response
+        # block. Confirm S(WTX) requests until the response arrives.
+        while len(data) > 1 and data[0] & 0b11111110 == 0b11110010:  # WTX
+            log.debug("ISO-DEP waiting time extension")
+            try:
+                data = self.clf.exchange(data, (data[1] & 0x3F) * self.fwt)
+                if len(data) == 0:
+                    raise nfc.clf.TransmissionError
+            except nfc.clf.TransmissionError:
+                log.error("ISO-DEP unrecoverable transmission error")
+                raise Type4TagCommandError(nfc.tag.RECEIVE_ERROR)
+            except nfc.clf.TimeoutError:
+                log.error("ISO-DEP unrecoverable timeout error")
+                raise Type4TagCommandError(nfc.tag.TIMEOUT_ERROR)
+            except nfc.clf.ProtocolError:
+                log.error("ISO-DEP unrecoverable protocol error")
+                raise Type4TagCommandError(nfc.tag.PROTOCOL_ERROR)
+        return data
 
 
 class Type4Tag(nfc.tag.Tag):
